@@ -111,41 +111,50 @@ Fixpoint sorted_by (key : N -> N) (l : list N) : bool :=
   | x :: ((y :: _) as t) => (key x <=? key y)%N && sorted_by key t
   | _ => true
   end.
-Fixpoint stable_by (key : N -> N) (l : list N) : bool :=   (* equal keys keep position order *)
-  match l with
-  | x :: ((y :: _) as t) =>
-      (negb (key x =? key y)%N || (x mod 1024 <? y mod 1024)%N) && stable_by key t
-  | _ => true
-  end.
 Fixpoint find_pos (x : N) (l : list N) (i : nat) : option nat :=
   match l with [] => None | y :: t => if (x =? y)%N then Some i else find_pos x t (S i) end.
 Fixpoint nodup_nat (l : list nat) : bool :=
   match l with [] => true | x :: t => negb (existsb (Nat.eqb x) t) && nodup_nat t end.
 
-(** every line of the result is one original line intact, each original exactly once:
-    line [j] of the result comes from the original line that held its key cell *)
-Definition sort_ok (C : nat) (q : rect) (var : nat) (line : nat) (old new : list N) : bool :=
+(** the place of original line [i] after a STABLE sort, stated without any sorting
+    algorithm: the number of lines that must precede it - those with a smaller key, and
+    those with an equal key that stood before it *)
+Definition rank_of (keys : list N) (i : nat) : nat :=
+  let ki := nth_N keys i in
+  length (filter (fun j => let kj := nth_N keys j in (kj <? ki)%N || ((kj =? ki)%N && (j <? i)))
+                 (seq 0 (length keys))).
+
+(** whole line [j] of [new] = whole line [i] of [old] *)
+Definition line_eq (C : nat) (q : rect) (is_col : bool) (new old : list N) (j i : nat) : bool :=
   let '(_, _, nc, nr) := q in
+  let other := if is_col then nc else nr in
+  forallb (fun t =>
+             let '(cj, rj, ci, ri) := if is_col then (t, j, t, i) else (j, t, i, t) in
+             (nth_N new (cell_idx C q cj rj) =? nth_N old (cell_idx C q ci ri))%N)
+          (seq 0 other).
+
+(** stable variants: the result is determined - original line [i] stands at [rank_of i]
+    (key cells may tie, and may be equal values: the lines are told apart by their place).
+    Unstable variants: every line of the result is one original line intact, each original
+    exactly once, keys in order; line [j] of the result comes from the original line that
+    held its key cell (the generator keeps key cells of unstable cases distinct) *)
+Definition sort_ok (C : nat) (q : rect) (var : nat) (line : nat) (old new : list N) : bool :=
   let is_col := sort_is_col var in
   let key := key_of (sort_by_key var) in
   let kc := line_cells C q is_col line in
   let old_keys := map (nth_N old) kc in
   let new_keys := map (nth_N new) kc in
   let n := length kc in
+  if sort_is_stable var then
+    forallb (fun i => line_eq C q is_col new old (rank_of (map key old_keys) i) i) (seq 0 n)
+  else
   let origin := map (fun x => find_pos x old_keys 0) new_keys in
   sorted_by key new_keys
-  && (if sort_is_stable var then stable_by key new_keys else true)
   && forallb (fun o => match o with Some _ => true | None => false end) origin
   && nodup_nat (map (fun o => match o with Some i => i | None => 0 end) origin)
   && forallb (fun j =>
         match nth_error origin j with
-        | Some (Some i) =>
-            (* whole line j of the result = whole original line i *)
-            let other := if is_col then nc else nr in
-            forallb (fun t =>
-                       let '(cj, rj, ci, ri) := if is_col then (t, j, t, i) else (j, t, i, t) in
-                       (nth_N new (cell_idx C q cj rj) =? nth_N old (cell_idx C q ci ri))%N)
-                    (seq 0 other)
+        | Some (Some i) => line_eq C q is_col new old j i
         | _ => false
         end) (seq 0 n).
 
